@@ -55,6 +55,7 @@ static std::vector<sg4::BarrierPtr> bars;
 static std::vector<sg4::Mailbox*> mboxes;
 static std::vector<sg4::MessageQueue*> mqs;
 static std::vector<sg4::Host*> hosts;
+static sg4::Link* the_link = nullptr;
 static std::vector<sg4::ActorPtr> aptr; // actors by program index (nullptr until created)
 static void run_actor(int idx);
 
@@ -175,7 +176,15 @@ static void run_actor(int idx)
           aptr[op.a[0] - 1]->join(op.a[2] * TICK);
         else
           aptr[op.a[0] - 1]->join();
-      } else if (n == "put")
+      } else if (n == "hostoff")
+        hosts[(op.a[0] - 1) % nhosts]->turn_off();
+      else if (n == "hoston")
+        hosts[(op.a[0] - 1) % nhosts]->turn_on();
+      else if (n == "linkoff")
+        the_link->turn_off();
+      else if (n == "linkon")
+        the_link->turn_on();
+      else if (n == "put")
         mboxes[op.a[0] - 1]->put(mkpay(k + 1, op.a[2]), op.a[2]);
       else if (n == "puta") {
         handles.push_back(mboxes[op.a[0] - 1]->put_async(mkpay(k + 1, op.a[2]), op.a[2]));
@@ -335,6 +344,7 @@ int main(int argc, char** argv)
     hosts.push_back(zone->add_host("h" + std::to_string(i + 1), timed ? 1024.0 / TICK : 1e9));
   auto* link = timed ? zone->add_link("l", 1.0 / TICK)->set_latency(0)->set_sharing_policy(sg4::Link::SharingPolicy::FATPIPE)
                      : zone->add_link("l", 1e6)->set_latency(1e-4);
+  the_link = link;
   for (int i = 0; i < nhosts; i++)
     for (int j = i; j < nhosts; j++) // j == i: an actor may send to itself, through the same dedicated link
       zone->add_route(hosts[i], hosts[j], std::vector<sg4::LinkInRoute>{sg4::LinkInRoute(link)}, i != j);
